@@ -168,10 +168,41 @@ OPEN = [
     ("K03-ungrouped-summarize-deselected", ["C04", "C01"],
      "SQL: after an ungrouped summarize, deselecting all its aggregate columns (e.g. keeping only a constant column) "
      "removes every aggregate function from the SELECT, which then returns one row per input row instead of one row",
-     r"mismatch\|.*height", "ungrouped_summarize_deselected",
+     r"(mismatch\|.*height)|(internal-error\|sqlite:export:OperationalError)", "ungrouped_summarize_deselected",
      {"tables": [TG], "steps": [S(), st("v1", "summarize", "v0", items=[["s", F("sum", C("x"))]]),
                                 st("v2", "mutate", "v1", items=[["k", L("c")]]), st("v3", "select", "v2", cols=[{"c": "k"}])],
       "result": "v3"}),
+]
+
+OPEN += [
+    ("K05-group-by-constant-column", ["C04", "C01"],
+     "SQL: constant grouping columns are left out of GROUP BY; if all grouping columns are constant the SELECT has no "
+     "GROUP BY: an empty input gives one row instead of none, and without an aggregate function one row per input row",
+     r"mismatch\|.*(height|rows)", "group_by_constant",
+     {"tables": [src([["id", "int64"], ["x", "int64"]], [])],
+      "steps": [S(), st("v1", "mutate", "v0", items=[["k", L(1)]]), st("v2", "group_by", "v1", cols=[{"c": "k"}]),
+                st("v3", "summarize", "v2", items=[["s", F("sum", C("x"))]])], "result": "v3"}),
+]
+
+FIXED += [
+    ("F28-subquery-loses-ungrouped-aggregate", "C08", "a subquery keeps an aggregate of a summarize without grouping",
+     "SQL: ungrouped summarize whose columns are unused by the following summarize vanished from the subquery",
+     {"tables": [TG], "steps": [S(), st("v1", "group_by", "v0", cols=[{"c": "g"}]), st("v2", "summarize", "v1", items=[["y", F("sum", C("x"))]]),
+                                st("v3", "alias", "v2", keep=True), st("v4", "summarize", "v3", items=[["q", F("count_star")]]),
+                                st("v5", "alias", "v4", keep=True), st("v6", "summarize", "v5", items=[["n", F("count_star")]])],
+      "result": "v6"}),
+    ("F29-case-cond-ftype", "C08", "function type of a case expression accounts for its conditions",
+     "window function inside a case condition was not recognised (nested window compiled into one SELECT)",
+     {"tables": [TG], "steps": [S(), st("v1", "mutate", "v0", items=[["w", ["case", [[F("ge", F("count_star"), L(3)), C("x")]], None]]]),
+                                st("v2", "mutate", "v1", items=[["m", F("max", C("w"))]])], "result": "v2"}),
+    ("F30a-window-after-slice", "C08", "window functions need a subquery after slice_head and before filter",
+     "SQL: window function after slice_head computed over the rows before the limit",
+     {"tables": [TG], "steps": [S(), st("v1", "arrange", "v0", keys=[[C("id"), False, None, 0]]), st("v2", "slice_head", "v1", n=2, offset=0),
+                                st("v3", "mutate", "v2", items=[["s", F("sum", C("x"))]])], "result": "v3"}),
+    ("F30b-filter-after-window", "C08", "window functions need a subquery after slice_head and before filter",
+     "SQL: filter after a window function restricted the rows the window function saw",
+     {"tables": [TG], "steps": [S(), st("v1", "mutate", "v0", items=[["s", F("sum", C("x"))]]),
+                                st("v2", "filter", "v1", preds=[F("eq", C("g"), L(1))])], "result": "v2"}),
 ]
 
 
